@@ -9,8 +9,12 @@ import Props.Family
 import Gen.Guards.Closable
 import Gen.Guards.Det
 import Gen.Guards.FillersOK
+import Gen.Guards.InlineUniform
+import Gen.Guards.JoinCompat
 import Gen.Guards.LabelsOK
 import Gen.Guards.LeafOk
+import Gen.Guards.ReopenOK
+import Gen.Guards.TextAbsorb
 import Gen.Guards.TextStable
 import Gen.Guards.TextStableC
 import Gen.Guards.WrapOK
@@ -597,5 +601,133 @@ theorem fit_raises_only_at_sites (S : Schema) (hS : S ∈ familySchemas) (doc : 
     (∃ w a b, requestBadState S doc f t sl = some (w, a, b) ∧ (w && a && b) = false) :=
   PM.C11.fit_raises_only_at_sites S (family_det _ hS) (family_fillersOK _ hS) (family_wrapOK _ hS)
     (family_labelsOK _ hS) (family_textStableC _ hS) (family_closable _ hS) doc f t sl hv hattrs htop hft ht h
+
+/-- `PM.C11.delete_applies` with its schema guards discharged for the bundled schema family -/
+theorem delete_applies (S : Schema) (hS : S ∈ familySchemas) (doc : Node) (f t : Nat) (hv : C01.Valid S doc)
+    (hdoc : C01.IsElem doc) (hn : fnorm doc.kids = true) (hattrs : S.nodeAttrsOK doc = true)
+    (hhc : highClosedKids doc.kids = true) (hft : f ≤ t) (hpf : pairAligned doc f = true)
+    (hpt : pairAligned doc t = true) (st : Step) (h : replaceStep S doc f t Slice.empty = .ok (some st)) :
+    ∃ doc', S.apply st doc = .ok doc' :=
+  PM.C11.delete_applies S (family_det _ hS) (family_fillersOK _ hS) (family_leafOk _ hS) (family_closable _ hS)
+    (family_textStableC _ hS) (family_textAbsorb _ hS) (family_joinCompat _ hS) (family_reopenOK _ hS)
+    (family_inlineUniform _ hS) doc f t hv hdoc hn hattrs hhc hft hpf hpt st h
+
+/-- `PM.C11.delete_never_raises` with its schema guards discharged for the bundled schema family -/
+theorem delete_never_raises (S : Schema) (hS : S ∈ familySchemas) (doc : Node) (f t : Nat)
+    (hv : C01.Valid S doc) (hdoc : C01.IsElem doc) (hn : fnorm doc.kids = true)
+    (hattrs : S.nodeAttrsOK doc = true) (hhc : highClosedKids doc.kids = true)
+    (htop : S.isTextblockO (S.tyOf doc) = false) (hft : f ≤ t) (ht : t ≤ fsize doc.kids)
+    (hpf : pairAligned doc f = true) (hpt : pairAligned doc t = true) :
+    replaceStep S doc f t Slice.empty = .ok none ∨
+    ∃ st doc', replaceStep S doc f t Slice.empty = .ok (some st) ∧ S.apply st doc = .ok doc' ∧ C01.Valid S doc' ∧
+    Kept (ftoks doc.kids) (ftoks doc'.kids) f t [] ∧
+    textUnits (ftoks doc'.kids) = textUnits ((ftoks doc.kids).take f) ++ textUnits ((ftoks doc.kids).drop t) :=
+  PM.C11.delete_never_raises S (family_det _ hS) (family_fillersOK _ hS) (family_leafOk _ hS)
+    (family_closable _ hS) (family_textStableC _ hS) (family_textAbsorb _ hS) (family_joinCompat _ hS)
+    (family_reopenOK _ hS) (family_inlineUniform _ hS) doc f t hv hdoc hn hattrs hhc htop hft ht hpf hpt
+
+/-- `PM.C11.deleteRange_applies` with its schema guards discharged for the bundled schema family -/
+theorem deleteRange_applies (S : Schema) (hS : S ∈ familySchemas) (doc : Node) (f t : Nat)
+    (hv : C01.Valid S doc) (hdoc : C01.IsElem doc) (hn : fnorm doc.kids = true)
+    (hattrs : S.nodeAttrsOK doc = true) (hhc : highClosedKids doc.kids = true) (hft : f ≤ t)
+    (ht : t ≤ fsize doc.kids) (hpf : pairAligned doc f = true) (hpt : pairAligned doc t = true) (st : Step)
+    (h : deleteRangeStep S doc f t = .ok (some st)) :
+    ∃ doc', S.apply st doc = .ok doc' :=
+  PM.C11.deleteRange_applies S (family_det _ hS) (family_fillersOK _ hS) (family_leafOk _ hS)
+    (family_closable _ hS) (family_textStableC _ hS) (family_textAbsorb _ hS) (family_joinCompat _ hS)
+    (family_reopenOK _ hS) (family_inlineUniform _ hS) doc f t hv hdoc hn hattrs hhc hft ht hpf hpt st h
+
+/-- `PM.C11.deleteRange_never_raises` with its schema guards discharged for the bundled schema family -/
+theorem deleteRange_never_raises (S : Schema) (hS : S ∈ familySchemas) (doc : Node) (f t : Nat)
+    (hv : C01.Valid S doc) (hdoc : C01.IsElem doc) (hn : fnorm doc.kids = true)
+    (hattrs : S.nodeAttrsOK doc = true) (hhc : highClosedKids doc.kids = true)
+    (htop : S.isTextblockO (S.tyOf doc) = false) (hft : f ≤ t) (ht : t ≤ fsize doc.kids)
+    (hpf : pairAligned doc f = true) (hpt : pairAligned doc t = true) :
+    deleteRangeStep S doc f t = .ok none ∨
+    ∃ st doc', deleteRangeStep S doc f t = .ok (some st) ∧ S.apply st doc = .ok doc' ∧ C01.Valid S doc' ∧
+    Kept (ftoks doc.kids) (ftoks doc'.kids) f t [] ∧
+    textUnits (ftoks doc'.kids) = textUnits ((ftoks doc.kids).take f) ++ textUnits ((ftoks doc.kids).drop t) :=
+  PM.C11.deleteRange_never_raises S (family_det _ hS) (family_fillersOK _ hS) (family_leafOk _ hS)
+    (family_closable _ hS) (family_textStableC _ hS) (family_textAbsorb _ hS) (family_joinCompat _ hS)
+    (family_reopenOK _ hS) (family_inlineUniform _ hS) doc f t hv hdoc hn hattrs hhc htop hft ht hpf hpt
+
+/-- `PM.C11.replaceRange_delete_applies` with its schema guards discharged for the bundled schema family -/
+theorem replaceRange_delete_applies (S : Schema) (hS : S ∈ familySchemas) (doc : Node) (f t : Nat) (sl : Slice)
+    (hsz : (sl.size == 0) = true) (cs : List (Nat × Nat × Slice)) (hv : C01.Valid S doc) (hdoc : C01.IsElem doc)
+    (hn : fnorm doc.kids = true) (hattrs : S.nodeAttrsOK doc = true) (hhc : highClosedKids doc.kids = true)
+    (hft : f ≤ t) (ht : t ≤ fsize doc.kids) (hpf : pairAligned doc f = true) (hpt : pairAligned doc t = true)
+    (h : replaceRangeCalls S doc f t sl = some cs) (c : Nat × Nat × Slice) (hc : c ∈ cs) (st : Step)
+    (hst : replaceStep S doc c.1 c.2.1 c.2.2 = .ok (some st)) :
+    ∃ doc', S.apply st doc = .ok doc' :=
+  PM.C11.replaceRange_delete_applies S (family_det _ hS) (family_fillersOK _ hS) (family_leafOk _ hS)
+    (family_closable _ hS) (family_textStableC _ hS) (family_textAbsorb _ hS) (family_joinCompat _ hS)
+    (family_reopenOK _ hS) (family_inlineUniform _ hS) doc f t sl hsz cs hv hdoc hn hattrs hhc hft ht hpf hpt h
+    c hc st hst
+
+/-- `PM.C11.trivialFit_replace_applies` with its schema guards discharged for the bundled schema family -/
+theorem trivialFit_replace_applies (S : Schema) (hS : S ∈ familySchemas) (doc : Node) (f t : Nat) (sl : Slice)
+    (hv : C01.Valid S doc) (hdoc : C01.IsElem doc) (hn : fnorm doc.kids = true) (hsn : fnorm sl.content = true)
+    (hft : f ≤ t) (hpf : pairAligned doc f = true) (hpt : pairAligned doc t = true)
+    (htr : fitsTriviallyO S doc f t sl = some true) :
+    ∃ doc', S.apply (.replace f t sl false) doc = .ok doc' :=
+  PM.C11.trivialFit_replace_applies S (family_textStableC _ hS) (family_textAbsorb _ hS) doc f t sl hv hdoc hn
+    hsn hft hpf hpt htr
+
+/-- `PM.C11.replace_never_raises_flat` with its schema guards discharged for the bundled schema family -/
+theorem replace_never_raises_flat (S : Schema) (hS : S ∈ familySchemas) (doc : Node) (f t : Nat) (sl : Slice)
+    (hv : C01.Valid S doc) (hdoc : C01.IsElem doc) (hn : fnorm doc.kids = true) (hsn : fnorm sl.content = true)
+    (hft : f ≤ t) (hpf : pairAligned doc f = true) (hpt : pairAligned doc t = true)
+    (hne : ¬ (f = t ∧ sl.size = 0)) (htr : fitsTriviallyO S doc f t sl = some true) :
+    ∃ doc', replaceStep S doc f t sl = .ok (some (.replace f t sl false)) ∧
+    S.apply (.replace f t sl false) doc = .ok doc' :=
+  PM.C11.replace_never_raises_flat S (family_textStableC _ hS) (family_textAbsorb _ hS) doc f t sl hv hdoc hn
+    hsn hft hpf hpt hne htr
+
+/-- `PM.C11.insertInline_never_raises_flat` with its schema guards discharged for the bundled schema family -/
+theorem insertInline_never_raises_flat (S : Schema) (hS : S ∈ familySchemas) (doc : Node) (f t : Nat)
+    (sl : Slice) (hsl : sl.inlineLeaves S = true) (hslv : sl.closedValid S = true)
+    (hsn : fnorm sl.content = true) (hv : C01.Valid S doc) (hdoc : C01.IsElem doc) (hn : fnorm doc.kids = true)
+    (hattrs : S.nodeAttrsOK doc = true) (hft : f ≤ t) (hpf : pairAligned doc f = true)
+    (hpt : pairAligned doc t = true) (hne : ¬ (f = t ∧ sl.size = 0))
+    (htr : fitsTriviallyO S doc f t sl = some true) :
+    ∃ doc', replaceStep S doc f t sl = .ok (some (.replace f t sl false)) ∧
+    S.apply (.replace f t sl false) doc = .ok doc' ∧ C01.Valid S doc' ∧
+    Kept (ftoks doc.kids) (ftoks doc'.kids) f t (textUnits (sliceToks' sl)) :=
+  PM.C11.insertInline_never_raises_flat S (family_det _ hS) (family_fillersOK _ hS) (family_wrapOK _ hS)
+    (family_labelsOK _ hS) (family_leafOk _ hS) (family_textStableC _ hS) (family_closable _ hS)
+    (family_textAbsorb _ hS) doc f t sl hsl hslv hsn hv hdoc hn hattrs hft hpf hpt hne htr
+
+/-- `PM.C11.replace_applies_direct` with its schema guards discharged for the bundled schema family -/
+theorem replace_applies_direct (S : Schema) (hS : S ∈ familySchemas) (doc : Node) (f t : Nat) (sl : Slice)
+    (hv : C01.Valid S doc) (hdoc : C01.IsElem doc) (hn : fnorm doc.kids = true)
+    (hattrs : S.nodeAttrsOK doc = true) (hhc : highClosedKids doc.kids = true) (hft : f ≤ t)
+    (hpf : pairAligned doc f = true) (hpt : pairAligned doc t = true) (hdir : directFitB S doc f sl = true)
+    (hslv : sl.closedValid S = true) (hsn : fnorm sl.content = true) (hshc : highClosedKids sl.content = true)
+    (st : Step) (h : replaceStep S doc f t sl = .ok (some st)) :
+    ∃ doc', S.apply st doc = .ok doc' :=
+  PM.C11.replace_applies_direct S (family_det _ hS) (family_fillersOK _ hS) (family_leafOk _ hS)
+    (family_closable _ hS) (family_textStableC _ hS) (family_textAbsorb _ hS) (family_joinCompat _ hS)
+    (family_reopenOK _ hS) (family_inlineUniform _ hS) doc f t sl hv hdoc hn hattrs hhc hft hpf hpt hdir hslv
+    hsn hshc st h
+
+/-- `PM.C11.insertInline_never_raises_direct_partial` with its schema guards discharged for the bundled schema family -/
+theorem insertInline_never_raises_direct_partial (S : Schema) (hS : S ∈ domFamilySchemas) (doc : Node)
+    (f t : Nat) (sl : Slice) (hsl : sl.inlineLeaves S = true) (hslv : sl.closedValid S = true)
+    (hsn : fnorm sl.content = true) (hshc : highClosedKids sl.content = true) (hv : C01.Valid S doc)
+    (hdoc : C01.IsElem doc) (hn : fnorm doc.kids = true) (hattrs : S.nodeAttrsOK doc = true)
+    (hhc : highClosedKids doc.kids = true) (htop : S.isTextblockO (S.tyOf doc) = false) (hft : f ≤ t)
+    (ht : t ≤ fsize doc.kids) (hpf : pairAligned doc f = true) (hpt : pairAligned doc t = true)
+    (hdir : directFitB S doc f sl = true) :
+    replaceStep S doc f t sl = .ok none ∨
+    ∃ st doc', replaceStep S doc f t sl = .ok (some st) ∧ S.apply st doc = .ok doc' ∧ C01.Valid S doc' ∧
+    Kept (ftoks doc.kids) (ftoks doc'.kids) f t (textUnits (sliceToks' sl)) :=
+  PM.C11.insertInline_never_raises_direct_partial S (family_det _ (domFamily_sub _ hS))
+    (family_fillersOK _ (domFamily_sub _ hS)) (family_wrapOK _ (domFamily_sub _ hS))
+    (family_labelsOK _ (domFamily_sub _ hS)) (family_leafOk _ (domFamily_sub _ hS))
+    (family_textStableC _ (domFamily_sub _ hS)) (family_closable _ (domFamily_sub _ hS))
+    (family_textStable _ hS) (family_textAbsorb _ (domFamily_sub _ hS))
+    (family_joinCompat _ (domFamily_sub _ hS)) (family_reopenOK _ (domFamily_sub _ hS))
+    (family_inlineUniform _ (domFamily_sub _ hS)) doc f t sl hsl hslv hsn hshc hv hdoc hn hattrs hhc htop hft ht
+    hpf hpt hdir
 
 end PM.Family.C11
